@@ -60,7 +60,8 @@ MANIFEST = dict(
               "effect/sink inventory",
 )
 FLOORS = {"C18.1": 2, "C18.2": 4, "C18.3": 2, "C18.4": 3, "C18.5": 3,
-          "C18.6": 4, "C18.7": 4, "C18.8": 4, "C18.9": 1}
+          "C18.6": 4, "C18.7": 4, "C18.8": 4, "C18.9": 1,
+          "C18.10": 6}
 
 MC = "evo.main_config."
 ST = "evo.tools.settings."
@@ -81,6 +82,7 @@ def check(ctx):
     _merge_config(ctx, prog)
     _override_order(ctx, prog)
     _parser_types(ctx, prog)
+    _token_windows(ctx, prog)
     _generate(ctx, prog)
 
 
@@ -510,6 +512,124 @@ def _override_order(ctx, prog):
                f"config: import-time settings (line width, font, style, "
                f"backend ...) keep their on-disk values for that run",
                key=f"C18.8:{app}:import-order")
+
+
+def _token_windows(ctx, prog):
+    """C18.10: set / generate read, for the parameter at position i, the
+    value tokens i+1 .. up to (excluding) the next parameter / option, or to
+    the end of the argument list: index arithmetic as integer-linear normal
+    forms (so `i + 1 <= len - 1`, `i + 2 <= len`, `i + 1 < len` coincide and
+    an off-by-one does not)."""
+    from ..lib import linear, linear_cmp
+    for fname in ("set_config", "generate"):
+        f = prog.func(MC + fname)
+        r = Interp(prog).run(f)
+        al = tm.param("arg_list")
+        n_ = tm.call(tm.glob("builtins.len"), (al,), ())
+        loops = r.of_kind("loop")
+        outer = [e for e in loops if is_call_to(e.data["iter"],
+                                                "builtins.enumerate") and
+                 e.data["iter"].args[1] and e.data["iter"].args[1][0] is al]
+        if len(outer) != 1:
+            ctx.undecidable("C18.10", f, f"{fname}: loop over "
+                            f"enumerate(arg_list) not found")
+            continue
+        lid = outer[0].data["lid"]
+        idx = T("index", lid)
+        inner = [e for e in loops if lid in e.loops and (
+            is_call_to(e.data["iter"], "builtins.range") or (
+                e.data["iter"].op == "sub" and e.data["iter"].args[0] is al
+                and e.data["iter"].args[1].op == "slice"))]
+        if len(inner) != 1 or (
+                inner[0].data["iter"].op == "call" and
+                len(inner[0].data["iter"].args[1]) != 2):
+            ctx.undecidable("C18.10", f, f"{fname}: value-token loop "
+                            f"`range(start, stop)` / `arg_list[start:]` not "
+                            f"found")
+            continue
+        if inner[0].data["iter"].op == "sub":
+            lo, hi, st = inner[0].data["iter"].args[1].args
+            if st is not tm.NONE or hi is not tm.NONE:
+                ctx.undecidable("C18.10", f, f"{fname}: token slice "
+                                f"{fmt(inner[0].data['iter'])}")
+                continue
+            a, b = (const(0) if lo is tm.NONE else lo), n_
+        else:
+            a, b = inner[0].data["iter"].args[1]
+        la, lb = linear(a), linear(b)
+        ok = la == {idx: 1, 1: 1} and lb == {n_: 1}
+        show = lambda d: " + ".join(
+            (f"{v}" if k == 1 else f"{v}*{fmt(k)}") for k, v in
+            (d or {}).items()) or "0"
+        ctx.ob("C18.10", inner[0], ok,
+               f"{fname}: the value tokens of parameter i are scanned from "
+               f"i+1 to the end of the list" if ok else
+               f"{fname}: value tokens are scanned over range({show(la)}, "
+               f"{show(lb)}) — expected range(i + 1, len(arg_list))",
+               key=f"C18.10:{fname}:scan-range")
+        # every comparison between the position and the list length must be
+        # "a next token exists"
+        want = ("le", frozenset({(idx, 1), (n_, -1), (1, 2)}))
+        seen = set()
+        pos_cmps = []
+        for e in r.events:
+            pool = list(tm.atoms(e.live))
+            v = e.data.get("value")
+            if isinstance(v, T):
+                pool += [a_ for x in v.walk() if x.op == "ite"
+                         for a_ in tm.atoms(x.args[0])]
+            for a_ in pool:
+                if id(a_) in seen or a_.op != "cmp":
+                    continue
+                seen.add(id(a_))
+                lc = linear_cmp(a_)
+                if lc is None:
+                    continue
+                vars_ = {k for k, _ in lc[1]}
+                if idx in vars_ and n_ in vars_:
+                    pos_cmps.append((a_, lc))
+        neg_want = ("le", frozenset({(idx, -1), (n_, 1), (1, -1)}))
+        # i == len - 1 (i never exceeds the last index inside the loop)
+        last = frozenset({(idx, 1), (n_, -1), (1, 1)})
+        last2 = frozenset({(idx, -1), (n_, 1), (1, -1)})
+        okf = (want, neg_want, ("eq", last), ("ne", last), ("eq", last2),
+               ("ne", last2))
+        bad = [(a_, lc) for a_, lc in pos_cmps if lc not in okf]
+        ok = bool(pos_cmps) and not bad
+        ctx.ob("C18.10", f, ok,
+               f"{fname}: 'a next token exists' is tested as i + 1 < "
+               f"len(arg_list) ({len(pos_cmps)} comparison(s))" if ok else
+               f"{fname}: position test "
+               f"{fmt(bad[0][0]) if bad else 'missing'} is not "
+               f"`i + 1 < len(arg_list)` (off by one: the last value token "
+               f"is dropped or the list is over-read)",
+               key=f"C18.10:{fname}:next-exists")
+        # tokens are addressed at i (the parameter), i+1 (look-ahead) and j
+        subs = set()
+        for e in r.events:
+            for key in ("value", "live"):
+                v = e.data.get(key) if key == "value" else e.live
+                if isinstance(v, T):
+                    for x in v.walk():
+                        if x.op == "sub" and x.args[0] is al and \
+                                x.args[1].op != "slice":
+                            subs.add(x.args[1])
+        bad_idx = []
+        for i_ in subs:
+            li = linear(i_)
+            if i_.op == "elem" and i_.args[1] == inner[0].data["lid"]:
+                continue
+            if i_.op == "elem" and i_.args[1] == lid:
+                continue
+            if li == {idx: 1, 1: 1}:
+                continue
+            bad_idx.append(i_)
+        ctx.ob("C18.10", f, not bad_idx,
+               f"{fname}: tokens are read at i+1 (look-ahead) and at the "
+               f"scan position only" if not bad_idx else
+               f"{fname}: a token is read at arg_list[{fmt(bad_idx[0])}] — "
+               f"neither the look-ahead i+1 nor the scan position",
+               key=f"C18.10:{fname}:token-positions")
 
 
 def _parser_types(ctx, prog):
